@@ -90,7 +90,9 @@ F_OutGroup(V, W, S, strict, remove) ==
                             k1 == CHOOSE k \in ks : TRUE
                             k2 == CHOOSE k \in ks : k # k1
                         IN  /\ Num(BrOf(W, k1).len) = Num(BrOf(W, k2).len)
-                            /\ Num(BrOf(W, k1).len) + Num(BrOf(W, k2).len) = SplitLen(V)[{S, V.names \ S}])
+                            \* the separating branch is one branch when the tree has no single-child chain
+                            /\ SingleNodes(V) = {} =>
+                                 Num(BrOf(W, k1).len) + Num(BrOf(W, k2).len) = SplitLen(V)[{S, V.names \ S}])
        ELSE LET K == V.names \ S
             IN   Fail("OutgroupRemoved", W.names = K /\ UniqueNames(W))
             \cup Fail("RestIntactSplits", W.names = K => NTSplits(W) = InducedNT(V, K))
